@@ -39,6 +39,24 @@ CLAIMED.update({
             "ref/fa.py; operands share epsilon; default-generator state is set per case to model earlier calls"),
 })
 
+CLAIMED.update({
+    "C07": ("cfg_accepts_word and every CYK cell vs. least-fixpoint span-derivability reference over arbitrary rules",
+            "generated arbitrary grammars x all words up to a bound; generated CNF grammars x words up to length 7 x all table cells",
+            "ref/cfg.py (span fixpoint, cross-checked against a word-set fixpoint); <= 5 variables, words <= 4-7"),
+    "C08": ("full conversion, each pure phase and the cumulative notebook pipeline vs. reference language on all words up to L + own postcondition predicates",
+            "generated grammars incl. shared right-hand sides, unit cycles, 23-28 variables, taken start hints; bounded language equality with the reference on both sides",
+            "ref/cfg.py; language equality bounded to length 4-6 (CFG equivalence is undecidable)"),
+    "C09": ("pda_accepts_word vs. exact saturation reference; soundness for every limit, completeness when reference closure sizes stay within the limit",
+            "generated random and structured PDAs x all words up to length 3-4 x eight closure limits",
+            "ref/pda.py (saturation, cross-checked against bounded-stack search); <= 4 states"),
+    "C10": ("three normal forms and pda_to_cfg vs. saturation reference / span fixpoint on all words up to L, structural predicates on the result",
+            "generated random and structured PDAs (acceptance with non-empty stack, marker symbols in Gamma, 0 or several accepting states)",
+            "ref/pda.py, ref/cfg.py; languages compared on words up to length 3-4"),
+    "C11": ("tm_accepts_word / tm_simulate_word vs. reference Sipser simulator: verdict identity, element-wise traces, budget monotonicity",
+            "generated deterministic TMs x all words up to length 3-4 x step budgets {0..1000}",
+            "ref/tm.py (cross-checked against a two-stack simulator); <= 5 states"),
+})
+
 NOT_YET = {
 }
 
